@@ -568,7 +568,7 @@ MANIFEST = dict(
     note='RNG replaced by a symbolic stub through the private _RS_* '
     'attributes; K=2 and two antenna layouts; floats as reals; history '
     'length bounded'
-    ' Concrete data-representation / scale / boundary probes of the real'
+    '. Concrete data-representation / scale / boundary probes of the real'
     ' code (dtype, container and memory-layout variants, argument'
     ' immutability, magnitudes) accompany the symbolic runs; they are'
     ' differential runs, not solver verdicts.',
